@@ -72,7 +72,8 @@ CLAIMED = {
          "strapdown_ins_propagate returns, for EVERY input, that flow form with the code's series coefficient values (core identities), and on the "
          "closed-form cell (|w dt|^2 >= 4 eps, any dt of either sign) exactly the flow at t = dt with the quaternion norm preserved; dt = 0 is the "
          "identity; the semigroup law (dt1 then dt2 = dt1 + dt2) is proved for the flow (Lib/Flow.flow_semigroup, trigonometric addition formulas + "
-         "w^3 = -|w|^2 w) and lifted to the translated propagator on the closed-form cells. Uniqueness of the ODE solution and Taylor cells: numeric search only.",
+         "w^3 = -|w|^2 w) and lifted to the translated propagator on the closed-form cells; uniqueness (Lib/FlowUnique, Frobenius-norm argument) makes the output THE "
+         "solution of p' = v, v' = R a - g e3, R' = R [w]x at dt for any solution curve with the input as initial value (Props/C08U). Taylor cells: numeric search only.",
          "DESIGN.md §2 C08", TECH_T),
  "C15": ("proof", "Lean 4 theorems over the regenerated controller programs: rate-controller integrator within +-i_max after one step from ANY "
          "previous state and, by induction over the step list, after any non-empty sequence; filter coefficient strictly in (0,1); control law "
